@@ -420,6 +420,10 @@ class CursorFlow:
             if truth and a.k in ('inst', 'arg') and a.key() in self.cur and b.k in ('inst', 'arg') and \
                     b.key() in self.cur and self.ok(b, facts, record=False) and self.above_start(a):
                 out.add(('ok', a.key()))
+                if i.pred in ('ult', 'ugt'):
+                    # every pointer that is 'ok' lies at or before the first terminator (a cursor only ever steps over
+                    # characters known to differ from it), so a pointer strictly below one does not point at it
+                    out.add(('nn', a.key()))
         return out
 
     def above_start(self, v, depth=0):
@@ -634,6 +638,7 @@ class PEval:
         self.reach = None
         if start is not None:
             self.reach = self.reachable(start, set(stop))
+            self.edges.add((sw.block, start))
 
     def succs_taken(self, b):
         """successors of b that can be taken when the conversion character is c"""
@@ -678,7 +683,7 @@ class PEval:
         i = f.insts[v.id]
         op = i.op
         if op == 'load':
-            if i.id == self.ld.id or (i.ops[0].k in ('inst', 'arg') and i.ops[0].key() == self.ptr and i.ty.get('bits') == 8):
+            if i.id == self.ld.id or (i.ty.get('bits') == 8 and self.ptr is not None and self.same_ptr(i.ops[0]) == self.ptr):
                 return self.c
             return None
         if op in ('sext', 'zext', 'trunc'):
@@ -715,12 +720,27 @@ class PEval:
             vals = set()
             for (bb, v) in i.incoming:
                 p = f.bmap[bb]
-                if p in self.reach and (p, i.block) in self.edges:
+                if (p, i.block) in self.edges:
                     vals.add(self.ev(v, depth + 1))
             if len(vals) == 1:
                 return next(iter(vals))
             return None
         return None
+
+    def same_ptr(self, v, depth=0):
+        """key of the pointer v stands for on the paths of this conversion (phis with one live incoming edge are seen
+        through)"""
+        if v.k not in ('inst', 'arg'):
+            return None
+        if v.k == 'inst' and depth < 6:
+            i = self.f.insts[v.id]
+            if i.op == 'phi' and self.reach is not None and i.block in self.reach:
+                live = [o for (bb, o) in i.incoming if (self.f.bmap[bb], i.block) in self.edges]
+                if len(live) == 1:
+                    return self.same_ptr(live[0], depth + 1)
+            if i.op == 'bitcast':
+                return self.same_ptr(i.ops[0], depth + 1)
+        return v.key()
 
     def extra_bits(self, v, chain):
         """bits OR-ed into the directive word between the parser and this use (evaluable operands only)"""
@@ -944,6 +964,7 @@ class ParserRun:
                           cut_blocks={('__printf', swb.name)}, bitword_phis=bw, static_exit=static_exit_loop,
                           pure_by_args=CLASSIFIERS, models={'atoi': atoi_model})
         sx.atoi_tab = {}
+        sx.prune = False
         st = sx.start(f, fmt_args())
         self.rets = sx.run_function(f, st)
         self.states = sx.cut_states.get(swb.name, [])
@@ -1312,9 +1333,11 @@ class Flags:
         return ctx.bit(self.sym, m, repr(name))
 
 
-def model_int(ctx, fl, conv, w, p, u, nd, ran):
-    """ISO C 7.21.6.1 layout of d i u o x X (and the p form documented by the property: 0x + all hex digits of the
-    pointer).  nd: number of digits of |value| (symbol), ran: the implementation generated digits at all"""
+def model_int(ctx, fl, conv, w, p, u, nd, ran, pzeros=None):
+    """ISO C 7.21.6.1 layout of d i u o x X.  nd: number of digits of |value| (symbol), ran: the implementation generated
+    digits at all.  %p is implementation-defined in ISO C; the property asks for 0x followed by hex digits that parse
+    back to the pointer: any number pzeros >= 0 of leading zeros is accepted (taken from the emission), the field is
+    padded with blanks to the width on the side the - flag selects"""
     signed = conv in 'di'
     base = {'d': 10, 'i': 10, 'u': 10, 'o': 8, 'x': 16, 'X': 16, 'p': 16}[conv]
     ptr = conv == 'p'
@@ -1337,14 +1360,19 @@ def model_int(ctx, fl, conv, w, p, u, nd, ran):
     alt = ''
     if base == 16 and (ptr or (H and not zero)):
         alt = '0X' if U else '0x'
-    zprec = ctx.max0(p - ndo, 'precision > digits') if G else Lin(0)
+    if ptr:
+        zprec = pzeros if pzeros is not None else Lin(0)
+    else:
+        zprec = ctx.max0(p - ndo, 'precision >= digits') if G else Lin(0)
     if base == 8 and H and not ptr:
-        starts0 = (not ctx.eq(zprec, 0)) or (zero and not nodigits)
-        if not starts0:
+        # 7.21.6.1p6: the precision is increased, if and only if necessary, to force the first digit to be a zero
+        if zero and not nodigits:
+            pass
+        elif not ctx.test('sge', zprec, 1, 'precision > digits'):
             zprec = Lin(1)
     prefix = sign + alt
     body = zprec + ndo + len(prefix)
-    zflag = ctx.max0(w - body, 'width > body') if (Z and not L and not G) else Lin(0)
+    zflag = ctx.max0(w - body, 'width > body') if (Z and not L and not G and not ptr) else Lin(0)
     sp = ctx.max0(w - body - zflag, 'width > body')
     segs = []
     if not L:
